@@ -1,10 +1,11 @@
 """C04 - all entry points agree: is_valid, iter_errors, validate(), jsonschema.validate."""
+import json
 import random
 import warnings
 
 from harness import tlc, c11, errrec
 from harness.common import Check, draft_classes, pmap
-from harness.encode import Unencodable
+from harness.encode import Unencodable, enc
 from harness.gen_schema import Gen
 from harness.calibrate import META_IDS
 
@@ -100,6 +101,45 @@ def raised(fn):
         return {"k": "other", "e": _null_err(), "what": "%s: %s" % (type(e).__name__, str(e)[:100])}
 
 
+def _vals(e):
+    """the values an error carries (instance, keyword value, schema), tagged; a value never filled in is 'unset'"""
+    out = {}
+    for f, x in (("inst", e.instance), ("kwval", e.validator_value), ("sch", e.schema)):
+        if type(x).__name__ == "Unset":
+            out[f] = {"t": "unset"}
+        else:
+            try:
+                # the schema of a metaschema violation is a (large) piece of the metaschema: its canonical text is hashed
+                out[f] = enc(x) if f != "sch" else {"t": "hashed", "h": errrec.msg_hash(json.dumps(x, sort_keys=True, default=repr))}
+            except Unencodable:
+                out[f] = {"t": "unencodable", "repr": [ord(c) for c in repr(x)[:60]]}
+    return out
+
+
+def raised_with_values(fn):
+    exc = _JS.exceptions
+    try:
+        fn()
+    except exc.SchemaError as e:
+        return _vals(e)
+    except BaseException:  # noqa
+        pass
+    return {"inst": {"t": "none"}, "kwval": {"t": "none"}, "sch": {"t": "none"}}
+
+
+def twist(x, rng):
+    """an instance of the same shape whose numbers changed kind (integer-valued float <-> fractional, int <-> float)"""
+    if isinstance(x, bool) or x is None or isinstance(x, str):
+        return x
+    if isinstance(x, int):
+        return rng.choice([float(x), x + 0.5, x])
+    if isinstance(x, float):
+        return rng.choice([x + 0.5, float(int(x)) if abs(x) < 1e15 else x, x])
+    if isinstance(x, list):
+        return [twist(y, rng) for y in x]
+    return {k: twist(y, rng) for k, y in x.items()}
+
+
 def _null_err():
     return {"none": True, "kw": [], "ip": [], "sp": [], "msg": 0, "ctx": []}
 
@@ -123,6 +163,9 @@ def record_one(task):
     fc = _JS.FormatChecker() if rng.random() < 0.5 else None
     cls = _CLS[d]
     I = g.instance(S if isinstance(S, dict) else {})
+    reuse = rng.random() < 0.6
+    if reuse and rng.random() < 0.5:
+        I = twist(I, rng)          # numbers of every kind (int, integer-valued float, fractional) at the same places
     kw = {} if fc is None else {"format_checker": fc}
 
     def module_validate(inst):
@@ -136,6 +179,14 @@ def record_one(task):
     try:
         if ok == "ok":
             v = cls(S, **kw)
+            # the validator object is not fresh: it has been used on other instances of the same shape first (module
+            # validate() below builds its own fresh one)
+            if reuse:
+                used_on = [twist(I, rng), g.instance(S if isinstance(S, dict) else {})]
+                for I0 in used_on:
+                    v.is_valid(I0)
+                    list(v.iter_errors(I0))
+                info["validator_used_first_on"] = used_on
             e1 = list(v.iter_errors(I))
             rec = {"id": i, "kind": "valid-schema", "iv1": v.is_valid(I), "iv2": v.is_valid(I),
                    "e1": [errrec.obs_err(e) for e in e1], "e2": [errrec.obs_err(e) for e in v.iter_errors(I)],
@@ -149,7 +200,9 @@ def record_one(task):
             J = spy.wrap(I)
             cs = raised(lambda: cls.check_schema(S))
             first = next(cls(cls.META_SCHEMA).iter_errors(S), None)
-            rec = {"id": i, "kind": "invalid-schema", "cs": cs,
+            rec = {"id": i, "kind": "invalid-schema", "cs": cs, "csv": raised_with_values(lambda: cls.check_schema(S)),
+                   "mfv": _vals(first) if first is not None else {"inst": {"t": "none"}, "kwval": {"t": "none"}, "sch": {"t": "none"}},
+                   "mrv": raised_with_values(lambda: module_validate(J)),
                    "mf": {"k": "none", "e": _null_err()} if first is None else {"k": "err", "e": errrec.obs_err(first)},
                    "mr": raised(lambda: module_validate(J)), "mr2": raised(lambda: module_validate(J)), "spy": spy.n}
             info["check_schema"] = cs.get("what", cs["k"])
